@@ -168,8 +168,24 @@ func runInChildren(outDir string, lines []string) []caseOut {
 		}
 		if cur >= 0 && res[cur].obs == "" {
 			cls := "crash"
-			if strings.Contains(stderr.String(), "panic:") || strings.Contains(stderr.String(), "fatal error:") {
-				cls = "panic"
+			for _, l := range strings.Split(stderr.String(), "\n") {
+				if strings.HasPrefix(l, "panic: ") || strings.HasPrefix(l, "fatal error: ") {
+					// canonical tag: the panic message without addresses or punctuation
+					msg := l[strings.Index(l, ": ")+2:]
+					var b strings.Builder
+					for _, r := range msg {
+						switch {
+						case r >= 'a' && r <= 'z', r >= 'A' && r <= 'Z', r == ' ', r == '.', r == '_':
+							b.WriteRune(r)
+						}
+					}
+					t := strings.TrimSpace(b.String())
+					if len(t) > 60 {
+						t = t[:60]
+					}
+					cls = "panic[" + t + "]"
+					break
+				}
 			}
 			if os.Getenv("C09_DEBUG") != "" {
 				fmt.Fprintf(os.Stderr, "child died on case %d %q:\n%s\n", cur, lines[cur], stderr.String())
@@ -237,6 +253,9 @@ func run(out *Out, r *Rand, tier string, replay []string) {
 	var dry []string
 	for _, sc := range scenarioNames {
 		for side := 0; side < 2; side++ {
+			if side == 1 && rawScenarios[sc] {
+				continue
+			}
 			dry = append(dry, caseSpec{scen: sc, side: side, kind: "none", xact: "none"}.String())
 		}
 	}
@@ -295,14 +314,33 @@ func run(out *Out, r *Rand, tier string, replay []string) {
 		if *maxRuns > 0 {
 			n = *maxRuns
 		}
-		seen := map[int]bool{}
-		for len(pick) < n && len(seen) < len(all) {
-			j := r.Intn(len(all))
-			if seen[j] {
-				continue
+		// stratified by (fault kind, extra action): every stratum gets the same share
+		strata := map[string][]string{}
+		var keys []string
+		for _, l := range all {
+			cs, _ := parseCase(l)
+			k := cs.kind + "/" + cs.xact
+			if _, ok := strata[k]; !ok {
+				keys = append(keys, k)
 			}
-			seen[j] = true
-			pick = append(pick, all[j])
+			strata[k] = append(strata[k], l)
+		}
+		for len(pick) < n {
+			progressed := false
+			for _, k := range keys {
+				st := strata[k]
+				if len(st) == 0 || len(pick) >= n {
+					continue
+				}
+				j := r.Intn(len(st))
+				pick = append(pick, st[j])
+				st[j] = st[len(st)-1]
+				strata[k] = st[:len(st)-1]
+				progressed = true
+			}
+			if !progressed {
+				break
+			}
 		}
 	}
 	recordFault(out, pick, runInChildren(outDir, pick))
